@@ -31,7 +31,8 @@ def gen_spec(rng: random.Random, small=False) -> dict:
         "stepmod": ({"every": rng.randint(1, 4), "mult": rng.randint(2, 4), "vary": rng.random() < 0.6}
                     if (dt and rng.random() < 0.4) else None),
         "obs": ({"strats": rng.randint(0, 3), "when": rng.choice(["collect_metrics", "time_step", "time_step__prepare", "time_step__cleanup"]),
-                 "concat": rng.random() < 0.5, "defaults": rng.choice([[], [], ["sex"], ["sex", "color"]])} if rng.random() < 0.7 else None),
+                 "concat": rng.random() < 0.5, "defaults": rng.choice([[], [], ["sex"], ["sex", "color"]]),
+                 "values": rng.choice([0, 0, 2, 3, 5])} if rng.random() < 0.7 else None),
         "order": [rng.randint(0, 4) for _ in range(rng.randint(0, 3))],
     }
     if spec["obs"]:
